@@ -36,6 +36,18 @@ class RngWorld(World):
     def warmup(self, config="default"):
         import sigpy.mri  # noqa
 
+    _seeder = None
+
+    def _seed_numba(self, k):
+        if RngWorld._seeder is None:
+            import numba as nb
+
+            @nb.njit
+            def seeder(s):
+                np.random.seed(s)
+            RngWorld._seeder = seeder
+        RngWorld._seeder(k)
+
     # ------------------------------------------------------------------ plan
     def _argset(self, rng, small):
         if small:
@@ -125,6 +137,10 @@ class RngWorld(World):
         if (plan.get("config") == "nojit") != jit_off:
             raise RuntimeError("plan config %r needs NUMBA_DISABLE_JIT=%s" % (plan.get("config"), "1" if plan.get("config") == "nojit" else "unset"))
         np.random.seed(plan["seed"] % (2 ** 32))
+        if not jit_off:
+            # numba keeps a second, private generator (used by the compiled sampler when
+            # seed=None): it is process-global state too, so the session seeds it
+            self._seed_numba((plan["seed"] * 7919 + 13) % (2 ** 32))
         first = {}
         acts = []
         judged = 0
